@@ -91,7 +91,8 @@ def run(ctx):
       inside = sorted({own + 1 for own, _par, _off in step_boundaries(ad) if own + 1 in pts})
       times |= set(ctx.rng.sample(inside, min(len(inside), 4)))
       times = sorted(times)
-      jobs.append({"id": rid, "ad": ad, "cat": "stylecat", "times": times, "focus": []})
+      jobs.append({"id": rid, "ad": ad, "cat": "stylecat", "times": times, "focus": [],
+                   "edit": ctx.rng.randrange(1 << 30) if ctx.rng.random() < 0.2 else None})
       origin[rid] = ("random", None, ad)
 
   # observe and validate in batches (bounded memory in the thorough tier)
@@ -102,6 +103,8 @@ def run(ctx):
     recs = R.observe_all(part)
     good = []
     for r in recs:
+      if "ad2" in r:
+        origin[r["id"]] = ("random-edited", None, r.pop("ad2"))
       src, d, ad = origin[r["id"]]
       d = d if d is not None else ad
       d = json.loads(d) if isinstance(d, str) else d
